@@ -491,7 +491,10 @@ fn oracle(c: &WireCase, cx: &mut CaseCtx) -> Result<(), String> {
             }
             sup.canary.insert(ep.to_owned(), v);
         }
-        let reply = sup.worker.call(&frame(ep, payload), Duration::from_secs(20));
+        // once a non-termination has been confirmed in this run, later watchdog hits (shrinking
+        // re-evaluates many candidates) are judged by a short single wait
+        let hang_known = HANG_CONFIRMED.load(std::sync::atomic::Ordering::SeqCst);
+        let reply = sup.worker.call(&frame(ep, payload), Duration::from_secs(if hang_known { 2 } else { 10 }));
         sup.calls += 1;
         let outcome = match reply {
             Reply::Ok(out) => String::from_utf8_lossy(&out).into_owned(),
@@ -508,16 +511,20 @@ fn oracle(c: &WireCase, cx: &mut CaseCtx) -> Result<(), String> {
                 sup.canary.clear();
                 // a watchdog hit is a violation only if the same input alone never returns in
                 // three fresh processes with a 30 s budget each
+                if hang_known && payload.len() <= 65_536 {
+                    return Err(format!("entry point {ep} does not terminate on a {}-byte input (non-termination of this entry point was confirmed earlier in this run)", payload.len()));
+                }
                 let mut hangs = 0;
                 for _ in 0..3 {
                     if let Ok(mut w) = spawn() {
-                        if matches!(w.call(&frame(ep, payload), Duration::from_secs(30)), Reply::Timeout) {
+                        if matches!(w.call(&frame(ep, payload), Duration::from_secs(15)), Reply::Timeout) {
                             hangs += 1;
                         }
                     }
                 }
                 if hangs == 3 && payload.len() <= 65_536 {
-                    return Err(format!("entry point {ep} does not terminate (3 fresh processes, 30 s each) on a {}-byte input", payload.len()));
+                    HANG_CONFIRMED.store(true, std::sync::atomic::Ordering::SeqCst);
+                    return Err(format!("entry point {ep} does not terminate (3 fresh processes, 15 s each) on a {}-byte input", payload.len()));
                 }
                 INFRA.lock().unwrap().push(format!("watchdog hit on {ep} ({} bytes) not reproducible as non-termination", payload.len()));
                 return Ok(());
@@ -549,6 +556,8 @@ fn oracle(c: &WireCase, cx: &mut CaseCtx) -> Result<(), String> {
     })
 }
 
+static HANG_CONFIRMED: std::sync::atomic::AtomicBool = std::sync::atomic::AtomicBool::new(false);
+
 fn worker_main() -> ! {
     vf_engine::install_quiet_panic_hook();
     serve(STACK, |req| {
@@ -572,6 +581,7 @@ fn main() {
     }
     let id = args.first().cloned().unwrap_or_default();
     let mut ck = Check::from_env(&id, &args[1.min(args.len())..]);
+    ck.max_shrink_iters = 400;
     if id != "C17" {
         eprintln!("vf-wire: unknown property {id}");
         std::process::exit(2);
@@ -579,10 +589,10 @@ fn main() {
     ck.rule(
         "46 entry points (identifier parsers and accessors, Matrix URIs, typed event / Raw / ruleset / condition / canonical JSON deserialisation, request and response conversion from HTTP, Content-Disposition / X-Matrix / Retry-After headers, push evaluation and flattening, verify_json / verify_event / sign_json / hash_and_sign_event / hashes / redaction on hostile signed objects, PKCS#8 documents, base64, auth_check on arbitrary contents, HTML parse / sanitize / serialise / drop), each with repository-derived valid seeds. \
          G1: 1-3 byte-level mutations (bit flips, deletions, dictionary insertions, truncation, duplication, splices, boundary-length runs of 254..258 / 510..514 / 65,536 bytes, invalid UTF-8) and 1-3 structure-level mutations (delete / duplicate / swap a field, type swap, boundary-length strings, hostile identifiers, numeric extremes, JSON nesting up to 1,000 levels, HTML nesting up to 21,845 levels), fed in long sequences to the same supervised worker process whose calls run on a 2 MiB stack. \
-         Oracle: every call returns (no panic report, no abnormal process exit, no watchdog silence confirmed by three fresh 30 s runs), and every 250 calls the valid seeds of the entry point are re-evaluated in the same process and must give byte-identical results. Non-trivial = input that got past the entry point's first syntactic gate.",
+         Oracle: every call returns (no panic report, no abnormal process exit, no watchdog silence confirmed by three fresh 15 s runs), and every 250 calls the valid seeds of the entry point are re-evaluated in the same process and must give byte-identical results. Non-trivial = input that got past the entry point's first syntactic gate.",
     );
     ck.assume("input size <= 64 KiB (one PDU) except the explicit 65,536-byte boundary strings; JSON nesting <= 1,024; HTML nesting <= 21,845 = floor(65,535/3); 2 MiB thread stack");
-    ck.assume("a watchdog hit that three fresh 30 s runs do not reproduce is reported as inconclusive (exit 2), never as a violation");
+    ck.assume("a watchdog hit that three fresh 15 s runs do not reproduce is reported as inconclusive (exit 2), never as a violation");
     let n = ck.n(120_000, 6_000_000);
     ck.prop("mutated_seeds", n, case_strategy, oracle);
     for e in INFRA.lock().unwrap().drain(..) {
